@@ -91,6 +91,15 @@ func (g *gated) waitWrite() {
 	}
 }
 
+// release opens every gate for good.
+func (g *gated) release() {
+	select {
+	case <-g.abort:
+	default:
+		close(g.abort)
+	}
+}
+
 // the scheduler ----------------------------------------------------------------------------------
 
 var blockedStates = [][]byte{[]byte("chan send"), []byte("chan receive"), []byte("select"), []byte("sync.Mutex.Lock"),
@@ -205,7 +214,6 @@ func (g *gated) drive(d time.Duration) bool {
 			return true
 		}
 		if time.Now().After(deadline) {
-			close(g.abort)
 			return false
 		}
 		var a act
